@@ -12,6 +12,8 @@ THEOREMS = [
     "IsoVerif.Props.C02.C02_unrelated_write_partial",
     "IsoVerif.Props.C02.C02_quiet_no_rerun",
     "IsoVerif.Props.C02.C02_unrelated_writes_nested_partial",
+    "IsoVerif.Props.C02.C02_backdating_partial",
+    "IsoVerif.Props.C02.C02_runs_justified_partial",
 ]
 HARNESS = ("hx_pico", {"HX_ENGINE": "c02"})
 DRIVER = "drv_pico"
@@ -19,9 +21,9 @@ CASES = {"quick": 2400, "thorough": 120000}
 TECHNIQUE = _b.TECHNIQUE.replace("every call's value = from-scratch evaluation on the current sources",
                                  "the implementation's per-function run-counter deltas must lie within what an ideal memoiser (semantic direct dependencies, no stamps) executes")
 PARTIAL = [
-    "C02_statement (every execution is a first run, follows a collection, or has a changed DIRECT semantic dependency) is not proved in general; no history is known on which today's code violates it: F3 (/repo b7bfe5c) and F22 (/repo 340414a) were repaired, their former witness histories are kernel-checked to satisfy the statement, and the correspondence + ideal-memoiser oracle find nothing",
-    "C02_equal_write_noop / _no_rerun hold for ALL programs and states. C02_quiet_no_rerun holds for ALL programs and states: a stored node whose recorded dependencies are transitively un-restamped is served without running any body. C02_unrelated_writes_nested_partial carries any nesting depth for acyclic programs with clean calls: after a call, any sequence of source operations (keyed, singleton, tracked-field; any values) on keys outside the RECORDED dependency closure of the node, then the same call again, runs no body. C02_unrelated_write_partial is the older depth-0 stage",
-    "backdating (a re-executed intermediate with an equal value does not re-execute its dependents) is not carried by a theorem: for nested programs it rests on the correspondence + ideal-memoiser oracle",
+    "C02_statement (history level: every execution is a first run, follows a collection, or has a DIRECT semantic dependency whose observation differed at some moment since the last run) is not proved in that form; no history is known on which today's code violates it: F3 (/repo b7bfe5c) and F22 (/repo 340414a) were repaired, their former witness histories are kernel-checked to satisfy the statement, and the correspondence + ideal-memoiser oracle find nothing",
+    "what IS proved for any nesting depth (acyclic call graph, fuel above every rank, clean calls — caught panics excluded): C02_runs_justified_partial, the stamp-level form of the statement for one call from any reachable state: every body that runs belongs to a node that was not stored, or has a recorded dependency that is stale (source re-stamped / absent source now present / callee re-stamped, before the call or during it by a re-execution with a DIFFERENT value); C02_backdating_partial: a node whose value is unchanged by the call keeps its time_updated exactly, re-executed or not — so it is not a reason to run its dependents; C02_unrelated_writes_nested_partial: source operations outside the recorded dependency closure cause no re-execution at all. The bridge from stamps to the history-level semantic statement (a re-stamp of a source means its value differed at some moment) is given by C02_equal_write_noop (an equal write does not re-stamp) but the composed history-level theorem is not stated",
+    "C02_equal_write_noop / _no_rerun and C02_quiet_no_rerun hold for ALL programs and states (no acyclicity, no cleanliness). C02_unrelated_write_partial is the older depth-0 stage",
 ]
 ASSUMPTIONS = _b.ASSUMPTIONS + [
     "which nodes a collection discarded is taken from the (agreeing) model: the implementation does not expose it",
@@ -44,5 +46,5 @@ def check_distribution(dist, cases):
 
 LEVEL_TEXT = ("Kernel-checked: C02_statement (every execution of a body is a first run, follows a collection, or has a changed DIRECT semantic dependency) "
               "as a decidable Prop over all programs and histories; the former witness histories of F3 and F22 kernel-checked to satisfy it on the repaired code; "
-              "and the theorems listed in THEOREMS about the repaired code (F3 /repo b7bfe5c, F22 /repo 340414a). Model = implementation on run counters, op by op.")
+              "and the theorems listed in THEOREMS about the repaired code (F3 /repo b7bfe5c, F22 /repo 340414a): equal writes are no-ops, quiet nodes are served without running, unrelated writes at any nesting depth, backdating, and every run is justified by a stale recorded dependency. Model = implementation on run counters, op by op.")
 LEVEL_NOTE = _b.LEVEL_NOTE
